@@ -443,6 +443,7 @@ type Contract struct {
 	Pure      bool
 	Fresh     bool
 	MayPanic  bool
+	OnceGuarded bool // closure that only ever runs inside sync.Once.Do (inventory-checked)
 	NoReturn  bool
 	Decreases *Clause
 	Loops     map[int]*LoopSpec
@@ -500,12 +501,13 @@ type Specs struct {
 	Axioms      []*Axiom
 	GlobalInsts map[string][]Clause
 	SharedTypes map[string]bool // type names considered shared between goroutines (C17)
+	Guarded     map[string]bool // heap keys of fields that may only be accessed under the owner's mutex
 	Files       []string
 }
 
 func NewSpecs() *Specs {
 	return &Specs{Contracts: map[string]*Contract{}, GhostFields: map[string]*GhostField{},
-		GhostVars: map[string]*GhostVar{}, SpecFuncs: map[string]*SpecFunc{}, SharedTypes: map[string]bool{}, Aliases: map[string]*Alias{}, Inline: map[string]bool{}, TypeInvs: map[string][]Clause{}}
+		GhostVars: map[string]*GhostVar{}, SpecFuncs: map[string]*SpecFunc{}, SharedTypes: map[string]bool{}, Guarded: map[string]bool{}, Aliases: map[string]*Alias{}, Inline: map[string]bool{}, TypeInvs: map[string][]Clause{}}
 }
 
 func parseClause(rest string) (Clause, error) {
@@ -831,6 +833,12 @@ func (S *Specs) LoadFile(path string, extern bool) error {
 			for _, t := range strings.Fields(rest) {
 				S.Inline[t] = true
 			}
+		case "guarded":
+			for _, t := range strings.Fields(strings.ReplaceAll(rest, ",", " ")) {
+				S.Guarded["F:"+t] = true
+			}
+		case "once_guarded":
+			cur.OnceGuarded = true
 		case "shared":
 			for _, t := range strings.Fields(strings.ReplaceAll(rest, ",", " ")) {
 				S.SharedTypes[t] = true
